@@ -94,3 +94,12 @@ def pipeline_classify(path, txn, rows, mode='first_match', loaded=None):
         raise Crash('normalize_merchant', e)
     return {'merchant': m, 'category': c, 'subcategory': s, 'tags': set((info or {}).get('tags', [])),
             'extra_fields': dict((info or {}).get('extra_fields', {})), 'info': info, 'loaded': (rules, transforms)}
+
+
+_TRACEBACK = __import__('re').compile(r'^Traceback \(most recent call last\):[ \t]*\r?\n[ \t]+File "', __import__('re').M)
+
+
+def crashed(text):
+    """Does command output contain a Python traceback?  (Not merely the WORD: statement text may say "Traceback" - Hypothesis even feeds
+    string constants of the test modules into generated text - so the real multi-line header is required.)"""
+    return bool(_TRACEBACK.search(text or ''))
